@@ -1,1 +1,640 @@
-//! C13 harnesses (not written yet).
+//! C13 — byte and stream serialisation is exact for both endiannesses.
+//!
+//! Model: a vector is `(len, value)`; its serialisation has `nb = ceil(len/8)` bytes with
+//! `value == sum(byte_j << 8j)` (Little) resp. the same bytes reversed (Big). Because the
+//! pre-state satisfies Inv (`value < 2^len`), "sum of *all* bits of *all* emitted bytes ==
+//! value" states both "byte j carries bits 8j..8j+7" and "the unused high bits of the last
+//! byte are zero". Results of `from_bytes` / `read` are inspected on their raw storage.
+//!
+//! Byte buffers have a concrete size per harness (cost rule 2); their contents, the
+//! endianness and (for `Bvf` / inline `Bv`) the bit length are symbolic.
+use crate::big::Big;
+use crate::nd;
+use crate::scopes::*;
+use bva::{Bit, BitVector, Bv, Bvd, Bvf, ConvertionError, Endianness};
+use std::io::{Read, Write};
+
+/// Value of `bytes[..nb]` under the given byte order (loop: callers bound `nb` by unwind).
+#[inline(always)]
+fn value_of(bytes: &[u8], nb: usize, big: bool) -> Big {
+    let mut acc = Big::ZERO;
+    let mut j = 0;
+    while j < nb {
+        let pos = if big { nb - 1 - j } else { j };
+        acc = acc.or(Big::lo(bytes[j] as u128).shl(8 * pos));
+        j += 1;
+    }
+    acc
+}
+
+#[inline(always)]
+fn is_big(e: Endianness) -> bool {
+    e == Endianness::Big
+}
+
+#[inline(always)]
+fn nbytes(len: usize) -> usize {
+    len / 8 + (len % 8 != 0) as usize
+}
+
+/// Witness only meaningful when the length is symbolic (`sym`); dropped for concrete (`con`).
+macro_rules! wk {
+    (sym, $c:expr, $d:literal) => {
+        w!($c, $d)
+    };
+    (con, $c:expr, $d:literal) => {};
+}
+
+macro_rules! sym_bytes {
+    ($n:literal) => {{
+        let mut b = [0u8; $n];
+        let mut i = 0;
+        while i < $n {
+            b[i] = nd::u8();
+            i += 1;
+        }
+        b
+    }};
+}
+
+// ---------------------------------------------------------------------------------------------
+// to_vec
+// ---------------------------------------------------------------------------------------------
+macro_rules! h_tovec {
+    ($name:ident, $unw:literal, $kind:ident, $a:expr) => {
+        harness!($name, $unw, {
+            let (a, ra) = $a;
+            let e = nd::endianness();
+            let n = ra.len;
+            let nb = nbytes(n);
+            wk!($kind, n % 8 != 0 && ra.v.bit(n - 1), "length not a multiple of 8 with the top bit set");
+            wk!($kind, n % 8 == 0 && n > 8 && is_big(e), "several whole bytes, big endian");
+            wk!($kind, n == 0, "empty vector");
+            w!(is_big(e) && (n == 0 || ra.v.bit(n - 1)), "big endian, top bit set (or empty)");
+            w!(!is_big(e) && (n == 0 || ra.v.bit(n - 1)), "little endian, top bit set (or empty)");
+            let out = a.to_vec(e);
+            assert!(out.len() == nb, "C13: to_vec does not emit exactly ceil(len/8) bytes");
+            let got = value_of(&out[..], out.len(), is_big(e));
+            assert!(got == ra.v, "C13: to_vec bytes are not the bits 8j..8j+7 (or top byte not zero padded)");
+            assert!(a.into_raw() == ra, "C13: to_vec modified the vector");
+        });
+    };
+}
+
+// ---------------------------------------------------------------------------------------------
+// write into a fixed array sink of $k bytes pre-filled with 0xA5
+// ---------------------------------------------------------------------------------------------
+macro_rules! h_write {
+    ($name:ident, $unw:literal, $kind:ident, $a:expr, $k:literal) => {
+        harness!($name, $unw, {
+            let (a, ra) = $a;
+            let e = nd::endianness();
+            let n = ra.len;
+            let nb = nbytes(n);
+            assert!(nb + 1 <= $k, "HARNESS: sink smaller than the largest serialisation plus one");
+            wk!($kind, n % 8 != 0 && ra.v.bit(n - 1), "length not a multiple of 8 with the top bit set");
+            wk!($kind, n % 8 == 0 && n > 8 && is_big(e), "several whole bytes, big endian");
+            wk!($kind, n == 0, "empty vector");
+            w!(is_big(e) && (n == 0 || ra.v.bit(n - 1)), "big endian, top bit set (or empty)");
+            w!(!is_big(e) && (n == 0 || ra.v.bit(n - 1)), "little endian, top bit set (or empty)");
+            let mut buf = [0xA5u8; $k];
+            let left;
+            {
+                let mut wr: &mut [u8] = &mut buf[..];
+                match a.write(&mut wr, e) {
+                    Ok(()) => {}
+                    Err(er) => {
+                        std::mem::forget(er);
+                        assert!(false, "C13: write into a large enough sink failed");
+                    }
+                }
+                left = wr.len();
+            }
+            assert!(left == $k - nb, "C13: write does not emit exactly ceil(len/8) bytes");
+            let got = value_of(&buf[..], nb, is_big(e));
+            assert!(got == ra.v, "C13: written bytes are not the bits 8j..8j+7 (or top byte not zero padded)");
+            assert!(buf[nb] == 0xA5 && buf[$k - 1] == 0xA5, "C13: write touched the sink beyond ceil(len/8) bytes");
+            assert!(a.into_raw() == ra, "C13: write modified the vector");
+        });
+    };
+}
+
+// ---------------------------------------------------------------------------------------------
+// from_bytes: $n symbolic bytes; capacity $cap bits (NOCAP = unbounded)
+// ---------------------------------------------------------------------------------------------
+macro_rules! h_frombytes {
+    ($name:ident, $unw:literal, $T:ty, $n:literal, $cap:expr) => {
+        harness!($name, $unw, {
+            let b = sym_bytes!($n);
+            let e = nd::endianness();
+            let want = value_of(&b[..], $n, is_big(e));
+            w!(is_big(e), "big endian");
+            w!(!is_big(e) && b.last().map_or(true, |x| *x >= 0x80), "little endian, most significant bit set (or empty)");
+            w!($n < 2 || (b.first() != b.last() && b.first() != Some(&0) && b.last() != Some(&0)), "first and last byte differ and are non-zero (or fewer than two bytes)");
+            let r = <$T>::from_bytes(&b[..], e);
+            if 8 * $n <= $cap {
+                match r {
+                    Ok(x) => {
+                        let rr = x.into_raw();
+                        assert!(rr.len == 8 * $n, "C13: from_bytes length != 8 * number of bytes");
+                        assert!(rr.v == want, "C13: from_bytes storage != value of the byte string");
+                        assert!(rr.len <= rr.cap, "C13: len > capacity");
+                    }
+                    Err(_) => assert!(false, "C13: from_bytes rejected a byte string that fits"),
+                }
+            } else {
+                match r {
+                    Ok(x) => {
+                        let _ = x.into_raw();
+                        assert!(false, "C13: from_bytes accepted a byte string beyond the fixed capacity");
+                    }
+                    Err(er) => assert!(er == ConvertionError::NotEnoughCapacity, "C13: from_bytes beyond capacity is not NotEnoughCapacity"),
+                }
+            }
+        });
+    };
+}
+
+// ---------------------------------------------------------------------------------------------
+// read: reader = &[u8] of $k symbolic bytes, `len` = $len, capacity $cap bits
+// ---------------------------------------------------------------------------------------------
+macro_rules! h_read {
+    ($name:ident, $unw:literal, $kind:ident, $T:ty, $k:literal, $len:expr, $cap:expr) => {
+        harness!($name, $unw, {
+            let b = sym_bytes!($k);
+            let e = nd::endianness();
+            let len: usize = $len;
+            let nb = nbytes(len);
+            w!(len > $cap || nb > $k || len % 8 == 0 || (if is_big(e) { b[0] } else { b[nb - 1] }) >> (len % 8) != 0, "surplus bits set in the most significant byte (when there is room for surplus bits)");
+            wk!($kind, len <= $cap && nb <= $k && len % 8 != 0 && (if is_big(e) { b[0] } else { b[nb - 1] }) >> (len % 8) != 0, "partial top byte with surplus bits set");
+            wk!($kind, len <= $cap && nb <= $k && len % 8 == 0 && len > 0, "whole number of bytes");
+            wk!($kind, len <= $cap && nb < $k, "reader holds more than needed");
+            wk!($kind, len == 0, "zero length");
+            w!(is_big(e), "big endian");
+            let mut rd: &[u8] = &b[..];
+            let r = <$T>::read(&mut rd, len, e);
+            let left = rd.len();
+            match r {
+                Ok(x) => {
+                    let rr = x.into_raw();
+                    assert!(len <= $cap, "C13: read returned Ok beyond the fixed capacity");
+                    assert!(nb <= $k, "C13: read returned Ok on short input");
+                    assert!(left == $k - nb, "C13: read did not consume exactly ceil(len/8) bytes");
+                    assert!(rr.len == len, "C13: read result is not exactly len bits long");
+                    assert!(rr.v == value_of(&b[..], nb, is_big(e)).trunc(len), "C13: read storage != the first ceil(len/8) bytes truncated to len bits");
+                    assert!(rr.len <= rr.cap, "C13: len > capacity");
+                }
+                Err(er) => {
+                    std::mem::forget(er);
+                    assert!(len > $cap || nb > $k, "C13: read failed although the input suffices and fits");
+                }
+            }
+        });
+    };
+}
+
+/// `read` with a length no reader of this size can satisfy: must be `Err`, not a panic and
+/// not `Ok`.
+macro_rules! h_read_short {
+    ($name:ident, $unw:literal, $T:ty, $k:literal, $len:expr) => {
+        harness!($name, $unw, {
+            let b = sym_bytes!($k);
+            let e = nd::endianness();
+            let len: usize = $len;
+            assert!(len > 8 * $k, "HARNESS: length can be satisfied by the reader");
+            // `attempt` decides nothing about the call; it keeps the query input-dependent so
+            // that the solver reports concrete draws for the native replay.
+            let attempt = nd::bool();
+            // (the byte values in the witnesses only keep their recorded draws distinct from
+            // those of a counterexample, which the playback output would otherwise merge)
+            w!(attempt && is_big(e) && b[0] == 0xA5, "big endian");
+            w!(attempt && !is_big(e) && b[0] == 0x5A, "little endian");
+            let mut rd: &[u8] = &b[..];
+            if attempt {
+                match <$T>::read(&mut rd, len, e) {
+                    Ok(x) => {
+                        std::mem::forget(x);
+                        assert!(false, "C13: read returned Ok on short input");
+                    }
+                    Err(er) => std::mem::forget(er),
+                }
+            }
+        });
+    };
+}
+
+// ---------------------------------------------------------------------------------------------
+// round trips
+// ---------------------------------------------------------------------------------------------
+macro_rules! h_rt_stream {
+    ($name:ident, $unw:literal, $kind:ident, $T:ty, $a:expr, $k:literal) => {
+        harness!($name, $unw, {
+            let (a, ra) = $a;
+            let e = nd::endianness();
+            let n = ra.len;
+            let nb = nbytes(n);
+            assert!(nb <= $k, "HARNESS: sink smaller than the largest serialisation");
+            wk!($kind, n % 8 != 0 && ra.v.bit(n - 1), "length not a multiple of 8 with the top bit set");
+            wk!($kind, n == 0, "empty vector");
+            wk!($kind, n > 8 && is_big(e), "more than one byte, big endian");
+            w!(is_big(e) && (n == 0 || ra.v.bit(n - 1)), "big endian, top bit set (or empty)");
+            w!(!is_big(e) && (n == 0 || ra.v.bit(n - 1)), "little endian, top bit set (or empty)");
+            let mut buf = [0u8; $k];
+            {
+                let mut wr: &mut [u8] = &mut buf[..];
+                match a.write(&mut wr, e) {
+                    Ok(()) => {}
+                    Err(er) => {
+                        std::mem::forget(er);
+                        assert!(false, "C13: write into a large enough sink failed");
+                    }
+                }
+            }
+            let mut rd: &[u8] = &buf[..];
+            match <$T>::read(&mut rd, n, e) {
+                Ok(x) => {
+                    assert!(rd.len() == $k - nb, "C13: read did not consume what write produced");
+                    let rr = x.into_raw();
+                    assert!(rr.len == n && rr.v == ra.v, "C13: read(write(v)) != v");
+                }
+                Err(er) => {
+                    std::mem::forget(er);
+                    assert!(false, "C13: read of a vector's own output failed");
+                }
+            }
+            assert!(a.into_raw() == ra, "C13: write modified the vector");
+        });
+    };
+}
+
+macro_rules! h_rt_bytes {
+    ($name:ident, $unw:literal, $kind:ident, $T:ty, $a:expr) => {
+        harness!($name, $unw, {
+            let (a, ra) = $a;
+            let e = nd::endianness();
+            let n = ra.len;
+            let nb = nbytes(n);
+            wk!($kind, n % 8 != 0 && ra.v.bit(n - 1), "length not a multiple of 8 with the top bit set");
+            wk!($kind, n == 0, "empty vector");
+            wk!($kind, n > 8 && is_big(e), "more than one byte, big endian");
+            w!(is_big(e) && (n == 0 || ra.v.bit(n - 1)), "big endian, top bit set (or empty)");
+            w!(!is_big(e) && (n == 0 || ra.v.bit(n - 1)), "little endian, top bit set (or empty)");
+            let out = a.to_vec(e);
+            match <$T>::from_bytes(&out, e) {
+                Ok(x) => {
+                    let rr = x.into_raw();
+                    assert!(rr.len == 8 * nb, "C13: from_bytes(to_vec(v)) is not v extended to whole bytes");
+                    assert!(rr.v == ra.v, "C13: from_bytes(to_vec(v)) differs in value from v");
+                }
+                Err(_) => assert!(false, "C13: from_bytes rejected a vector's own to_vec output"),
+            }
+            assert!(a.into_raw() == ra, "C13: to_vec modified the vector");
+        });
+    };
+}
+
+const NOCAP: usize = usize::MAX;
+
+// ==== to_vec / write: symbolic length where the byte count stays tiny ==========================
+h_tovec!(c13_q_tovec_f8x2, 4, sym, f8x2(anylen(16)));
+h_write!(c13_q_write_f8x2, 4, sym, f8x2(anylen(16)), 4);
+h_tovec!(c13_q_tovec_f8x3, 5, sym, f8x3(anylen(24)));
+h_write!(c13_q_write_f8x3, 5, sym, f8x3(anylen(24)), 5);
+h_tovec!(c13_t_tovec_f8x1, 4, sym, f8x1(anylen(8)));
+h_write!(c13_t_write_f8x1, 4, sym, f8x1(anylen(8)), 3);
+h_tovec!(c13_t_tovec_f16x2, 6, sym, f16x2(anylen(32)));
+h_write!(c13_t_write_f16x2, 6, sym, f16x2(anylen(32)), 6);
+// ==== to_vec / write: concrete length lattice, symbolic contents ================================
+h_tovec!(c13_q_tovec_f16x2_l15, 4, con, f16x2(15));
+h_write!(c13_q_write_f16x2_l15, 4, con, f16x2(15), 4);
+h_tovec!(c13_q_tovec_f16x2_l17, 5, con, f16x2(17));
+h_write!(c13_q_write_f16x2_l17, 5, con, f16x2(17), 5);
+h_tovec!(c13_q_tovec_f16x2_l32, 6, con, f16x2(32));
+h_write!(c13_q_write_f16x2_l32, 6, con, f16x2(32), 6);
+h_tovec!(c13_t_tovec_f16x2_l0, 4, con, f16x2(0));
+h_write!(c13_t_write_f16x2_l0, 4, con, f16x2(0), 2);
+h_tovec!(c13_t_tovec_f16x2_l1, 4, con, f16x2(1));
+h_write!(c13_t_write_f16x2_l1, 4, con, f16x2(1), 3);
+h_tovec!(c13_t_tovec_f16x2_l16, 4, con, f16x2(16));
+h_write!(c13_t_write_f16x2_l16, 4, con, f16x2(16), 4);
+h_tovec!(c13_t_tovec_f16x2_l31, 6, con, f16x2(31));
+h_write!(c13_t_write_f16x2_l31, 6, con, f16x2(31), 6);
+h_tovec!(c13_q_tovec_f64x2_l0, 4, con, f64x2(0));
+h_write!(c13_q_write_f64x2_l0, 4, con, f64x2(0), 2);
+h_tovec!(c13_q_tovec_f64x2_l1, 4, con, f64x2(1));
+h_write!(c13_q_write_f64x2_l1, 4, con, f64x2(1), 3);
+h_tovec!(c13_q_tovec_f64x2_l63, 10, con, f64x2(63));
+h_write!(c13_q_write_f64x2_l63, 10, con, f64x2(63), 10);
+h_tovec!(c13_q_tovec_f64x2_l64, 10, con, f64x2(64));
+h_write!(c13_q_write_f64x2_l64, 10, con, f64x2(64), 10);
+h_tovec!(c13_q_tovec_f64x2_l65, 11, con, f64x2(65));
+h_write!(c13_q_write_f64x2_l65, 11, con, f64x2(65), 11);
+h_tovec!(c13_q_tovec_f64x2_l127, 18, con, f64x2(127));
+h_write!(c13_q_write_f64x2_l127, 18, con, f64x2(127), 18);
+h_tovec!(c13_q_tovec_f64x2_l128, 18, con, f64x2(128));
+h_write!(c13_q_write_f64x2_l128, 18, con, f64x2(128), 18);
+h_tovec!(c13_t_tovec_f64x2_l7, 4, con, f64x2(7));
+h_write!(c13_t_write_f64x2_l7, 4, con, f64x2(7), 3);
+h_tovec!(c13_t_tovec_f64x2_l8, 4, con, f64x2(8));
+h_write!(c13_t_write_f64x2_l8, 4, con, f64x2(8), 3);
+h_tovec!(c13_t_tovec_f64x2_l9, 4, con, f64x2(9));
+h_write!(c13_t_write_f64x2_l9, 4, con, f64x2(9), 4);
+h_tovec!(c13_t_tovec_f64x2_l71, 11, con, f64x2(71));
+h_write!(c13_t_write_f64x2_l71, 11, con, f64x2(71), 11);
+h_tovec!(c13_t_tovec_f64x2_l72, 11, con, f64x2(72));
+h_write!(c13_t_write_f64x2_l72, 11, con, f64x2(72), 11);
+h_tovec!(c13_t_tovec_f64x2_l73, 12, con, f64x2(73));
+h_write!(c13_t_write_f64x2_l73, 12, con, f64x2(73), 12);
+h_tovec!(c13_t_tovec_f64x2_l120, 17, con, f64x2(120));
+h_write!(c13_t_write_f64x2_l120, 17, con, f64x2(120), 17);
+h_tovec!(c13_t_tovec_f64x2_l121, 18, con, f64x2(121));
+h_write!(c13_t_write_f64x2_l121, 18, con, f64x2(121), 18);
+h_tovec!(c13_t_tovec_f32x2_l31, 6, con, f32x2(31));
+h_write!(c13_t_write_f32x2_l31, 6, con, f32x2(31), 6);
+h_tovec!(c13_t_tovec_f32x2_l33, 7, con, f32x2(33));
+h_write!(c13_t_write_f32x2_l33, 7, con, f32x2(33), 7);
+h_tovec!(c13_t_tovec_f32x2_l64, 10, con, f32x2(64));
+h_write!(c13_t_write_f32x2_l64, 10, con, f32x2(64), 10);
+h_tovec!(c13_t_tovec_fuszx2_l65, 11, con, fuszx2(65));
+h_write!(c13_t_write_fuszx2_l65, 11, con, fuszx2(65), 11);
+h_tovec!(c13_t_tovec_fuszx2_l128, 18, con, fuszx2(128));
+h_write!(c13_t_write_fuszx2_l128, 18, con, fuszx2(128), 18);
+h_tovec!(c13_t_tovec_f128x1_l77, 12, con, f128x1(77));
+h_write!(c13_t_write_f128x1_l77, 12, con, f128x1(77), 12);
+h_tovec!(c13_t_tovec_f128x1_l128, 18, con, f128x1(128));
+h_write!(c13_t_write_f128x1_l128, 18, con, f128x1(128), 18);
+h_tovec!(c13_t_tovec_f128x2_l129, 19, con, f128x2(129));
+h_write!(c13_t_write_f128x2_l129, 19, con, f128x2(129), 19);
+h_tovec!(c13_t_tovec_f128x2_l250, 34, con, f128x2(250));
+h_write!(c13_t_write_f128x2_l250, 34, con, f128x2(250), 34);
+h_tovec!(c13_t_tovec_f128x2_l256, 34, con, f128x2(256));
+h_write!(c13_t_write_f128x2_l256, 34, con, f128x2(256), 34);
+h_tovec!(c13_t_tovec_f64x3_l130, 19, con, f64x3(130));
+h_write!(c13_t_write_f64x3_l130, 19, con, f64x3(130), 19);
+h_tovec!(c13_t_tovec_f64x3_l192, 26, con, f64x3(192));
+h_write!(c13_t_write_f64x3_l192, 26, con, f64x3(192), 26);
+h_tovec!(c13_q_tovec_bvd3_l0, 4, con, bvd3(0));
+h_write!(c13_q_write_bvd3_l0, 4, con, bvd3(0), 2);
+h_tovec!(c13_q_tovec_bvd3_l1, 4, con, bvd3(1));
+h_write!(c13_q_write_bvd3_l1, 4, con, bvd3(1), 3);
+h_tovec!(c13_q_tovec_bvd3_l8, 4, con, bvd3(8));
+h_write!(c13_q_write_bvd3_l8, 4, con, bvd3(8), 3);
+h_tovec!(c13_q_tovec_bvd3_l63, 10, con, bvd3(63));
+h_write!(c13_q_write_bvd3_l63, 10, con, bvd3(63), 10);
+h_tovec!(c13_q_tovec_bvd3_l64, 10, con, bvd3(64));
+h_write!(c13_q_write_bvd3_l64, 10, con, bvd3(64), 10);
+h_tovec!(c13_q_tovec_bvd3_l65, 11, con, bvd3(65));
+h_write!(c13_q_write_bvd3_l65, 11, con, bvd3(65), 11);
+h_tovec!(c13_q_tovec_bvd3_l127, 18, con, bvd3(127));
+h_write!(c13_q_write_bvd3_l127, 18, con, bvd3(127), 18);
+h_tovec!(c13_q_tovec_bvd3_l128, 18, con, bvd3(128));
+h_write!(c13_q_write_bvd3_l128, 18, con, bvd3(128), 18);
+h_tovec!(c13_q_tovec_bvd3_l129, 19, con, bvd3(129));
+h_write!(c13_q_write_bvd3_l129, 19, con, bvd3(129), 19);
+h_tovec!(c13_q_tovec_bvd3_l192, 26, con, bvd3(192));
+h_write!(c13_q_write_bvd3_l192, 26, con, bvd3(192), 26);
+h_tovec!(c13_t_tovec_bvd3_l7, 4, con, bvd3(7));
+h_write!(c13_t_write_bvd3_l7, 4, con, bvd3(7), 3);
+h_tovec!(c13_t_tovec_bvd3_l9, 4, con, bvd3(9));
+h_write!(c13_t_write_bvd3_l9, 4, con, bvd3(9), 4);
+h_tovec!(c13_t_tovec_bvd3_l72, 11, con, bvd3(72));
+h_write!(c13_t_write_bvd3_l72, 11, con, bvd3(72), 11);
+h_tovec!(c13_t_tovec_bvd3_l121, 18, con, bvd3(121));
+h_write!(c13_t_write_bvd3_l121, 18, con, bvd3(121), 18);
+h_tovec!(c13_t_tovec_bvd3_l130, 19, con, bvd3(130));
+h_write!(c13_t_write_bvd3_l130, 19, con, bvd3(130), 19);
+h_tovec!(c13_t_tovec_bvd3_l185, 26, con, bvd3(185));
+h_write!(c13_t_write_bvd3_l185, 26, con, bvd3(185), 26);
+h_tovec!(c13_t_tovec_bvd3_l191, 26, con, bvd3(191));
+h_write!(c13_t_write_bvd3_l191, 26, con, bvd3(191), 26);
+h_tovec!(c13_t_tovec_bvd1_l0, 4, con, bvd1(0));
+h_write!(c13_t_write_bvd1_l0, 4, con, bvd1(0), 2);
+h_tovec!(c13_t_tovec_bvd1_l5, 4, con, bvd1(5));
+h_write!(c13_t_write_bvd1_l5, 4, con, bvd1(5), 3);
+h_tovec!(c13_t_tovec_bvd1_l64, 10, con, bvd1(64));
+h_write!(c13_t_write_bvd1_l64, 10, con, bvd1(64), 10);
+h_tovec!(c13_t_tovec_bvd2_l60, 10, con, bvd2(60));
+h_write!(c13_t_write_bvd2_l60, 10, con, bvd2(60), 10);
+h_tovec!(c13_t_tovec_bvd2_l128, 18, con, bvd2(128));
+h_write!(c13_t_write_bvd2_l128, 18, con, bvd2(128), 18);
+h_tovec!(c13_q_tovec_bvfix_l0, 4, con, bvfix(0));
+h_write!(c13_q_write_bvfix_l0, 4, con, bvfix(0), 2);
+h_tovec!(c13_q_tovec_bvfix_l9, 4, con, bvfix(9));
+h_write!(c13_q_write_bvfix_l9, 4, con, bvfix(9), 4);
+h_tovec!(c13_q_tovec_bvfix_l64, 10, con, bvfix(64));
+h_write!(c13_q_write_bvfix_l64, 10, con, bvfix(64), 10);
+h_tovec!(c13_q_tovec_bvfix_l65, 11, con, bvfix(65));
+h_write!(c13_q_write_bvfix_l65, 11, con, bvfix(65), 11);
+h_tovec!(c13_q_tovec_bvfix_l128, 18, con, bvfix(128));
+h_write!(c13_q_write_bvfix_l128, 18, con, bvfix(128), 18);
+h_tovec!(c13_t_tovec_bvfix_l1, 4, con, bvfix(1));
+h_write!(c13_t_write_bvfix_l1, 4, con, bvfix(1), 3);
+h_tovec!(c13_t_tovec_bvfix_l127, 18, con, bvfix(127));
+h_write!(c13_t_write_bvfix_l127, 18, con, bvfix(127), 18);
+h_tovec!(c13_q_tovec_bvdyn2_l5, 4, con, bvdyn2(5));
+h_write!(c13_q_write_bvdyn2_l5, 4, con, bvdyn2(5), 3);
+h_tovec!(c13_q_tovec_bvdyn2_l100, 15, con, bvdyn2(100));
+h_write!(c13_q_write_bvdyn2_l100, 15, con, bvdyn2(100), 15);
+h_tovec!(c13_q_tovec_bvdyn2_l128, 18, con, bvdyn2(128));
+h_write!(c13_q_write_bvdyn2_l128, 18, con, bvdyn2(128), 18);
+h_tovec!(c13_t_tovec_bvdyn2_l0, 4, con, bvdyn2(0));
+h_write!(c13_t_write_bvdyn2_l0, 4, con, bvdyn2(0), 2);
+h_tovec!(c13_t_tovec_bvdyn2_l64, 10, con, bvdyn2(64));
+h_write!(c13_t_write_bvdyn2_l64, 10, con, bvdyn2(64), 10);
+h_tovec!(c13_t_tovec_bvdyn2_l65, 11, con, bvdyn2(65));
+h_write!(c13_t_write_bvdyn2_l65, 11, con, bvdyn2(65), 11);
+h_tovec!(c13_q_tovec_bvdyn3_l129, 19, con, bvdyn3(129));
+h_write!(c13_q_write_bvdyn3_l129, 19, con, bvdyn3(129), 19);
+h_tovec!(c13_q_tovec_bvdyn3_l192, 26, con, bvdyn3(192));
+h_write!(c13_q_write_bvdyn3_l192, 26, con, bvdyn3(192), 26);
+h_tovec!(c13_t_tovec_bvdyn3_l136, 19, con, bvdyn3(136));
+h_write!(c13_t_write_bvdyn3_l136, 19, con, bvdyn3(136), 19);
+h_tovec!(c13_t_tovec_bvdyn3_l60, 10, con, bvdyn3(60));
+h_write!(c13_t_write_bvdyn3_l60, 10, con, bvdyn3(60), 10);
+// ==== from_bytes: concrete number of bytes, symbolic contents ===================================
+h_frombytes!(c13_t_frombytes_f8x1_n0, 4, Bvf<u8, 1>, 0, 8);
+h_frombytes!(c13_t_frombytes_f8x1_n1, 4, Bvf<u8, 1>, 1, 8);
+h_frombytes!(c13_t_frombytes_f8x1_n2, 4, Bvf<u8, 1>, 2, 8);
+h_frombytes!(c13_q_frombytes_f8x2_n0, 4, Bvf<u8, 2>, 0, 16);
+h_frombytes!(c13_q_frombytes_f8x2_n1, 4, Bvf<u8, 2>, 1, 16);
+h_frombytes!(c13_q_frombytes_f8x2_n2, 4, Bvf<u8, 2>, 2, 16);
+h_frombytes!(c13_q_frombytes_f8x2_n3, 5, Bvf<u8, 2>, 3, 16);
+h_frombytes!(c13_q_frombytes_f8x3_n2, 4, Bvf<u8, 3>, 2, 24);
+h_frombytes!(c13_q_frombytes_f8x3_n3, 5, Bvf<u8, 3>, 3, 24);
+h_frombytes!(c13_q_frombytes_f8x3_n4, 6, Bvf<u8, 3>, 4, 24);
+h_frombytes!(c13_t_frombytes_f8x3_n0, 4, Bvf<u8, 3>, 0, 24);
+h_frombytes!(c13_t_frombytes_f8x3_n1, 4, Bvf<u8, 3>, 1, 24);
+h_frombytes!(c13_q_frombytes_f16x2_n1, 4, Bvf<u16, 2>, 1, 32);
+h_frombytes!(c13_q_frombytes_f16x2_n2, 4, Bvf<u16, 2>, 2, 32);
+h_frombytes!(c13_q_frombytes_f16x2_n3, 5, Bvf<u16, 2>, 3, 32);
+h_frombytes!(c13_q_frombytes_f16x2_n4, 6, Bvf<u16, 2>, 4, 32);
+h_frombytes!(c13_q_frombytes_f16x2_n5, 7, Bvf<u16, 2>, 5, 32);
+h_frombytes!(c13_t_frombytes_f16x2_n0, 4, Bvf<u16, 2>, 0, 32);
+h_frombytes!(c13_t_frombytes_f32x2_n3, 5, Bvf<u32, 2>, 3, 64);
+h_frombytes!(c13_t_frombytes_f32x2_n4, 6, Bvf<u32, 2>, 4, 64);
+h_frombytes!(c13_t_frombytes_f32x2_n5, 7, Bvf<u32, 2>, 5, 64);
+h_frombytes!(c13_t_frombytes_f32x2_n8, 10, Bvf<u32, 2>, 8, 64);
+h_frombytes!(c13_t_frombytes_f32x2_n9, 11, Bvf<u32, 2>, 9, 64);
+h_frombytes!(c13_q_frombytes_f64x2_n0, 4, Bvf<u64, 2>, 0, 128);
+h_frombytes!(c13_q_frombytes_f64x2_n1, 4, Bvf<u64, 2>, 1, 128);
+h_frombytes!(c13_q_frombytes_f64x2_n7, 9, Bvf<u64, 2>, 7, 128);
+h_frombytes!(c13_q_frombytes_f64x2_n8, 10, Bvf<u64, 2>, 8, 128);
+h_frombytes!(c13_q_frombytes_f64x2_n9, 11, Bvf<u64, 2>, 9, 128);
+h_frombytes!(c13_q_frombytes_f64x2_n15, 17, Bvf<u64, 2>, 15, 128);
+h_frombytes!(c13_q_frombytes_f64x2_n16, 18, Bvf<u64, 2>, 16, 128);
+h_frombytes!(c13_q_frombytes_f64x2_n17, 19, Bvf<u64, 2>, 17, 128);
+h_frombytes!(c13_t_frombytes_fuszx2_n9, 11, Bvf<usize, 2>, 9, 128);
+h_frombytes!(c13_t_frombytes_fuszx2_n16, 18, Bvf<usize, 2>, 16, 128);
+h_frombytes!(c13_t_frombytes_fuszx2_n17, 19, Bvf<usize, 2>, 17, 128);
+h_frombytes!(c13_t_frombytes_f128x1_n5, 7, Bvf<u128, 1>, 5, 128);
+h_frombytes!(c13_t_frombytes_f128x1_n16, 18, Bvf<u128, 1>, 16, 128);
+h_frombytes!(c13_t_frombytes_f128x1_n17, 19, Bvf<u128, 1>, 17, 128);
+h_frombytes!(c13_t_frombytes_f128x2_n17, 19, Bvf<u128, 2>, 17, 256);
+h_frombytes!(c13_t_frombytes_f128x2_n32, 34, Bvf<u128, 2>, 32, 256);
+h_frombytes!(c13_t_frombytes_f64x3_n17, 19, Bvf<u64, 3>, 17, 192);
+h_frombytes!(c13_t_frombytes_f64x3_n24, 26, Bvf<u64, 3>, 24, 192);
+h_frombytes!(c13_t_frombytes_f64x3_n25, 27, Bvf<u64, 3>, 25, 192);
+h_frombytes!(c13_q_frombytes_bvd_n0, 4, Bvd, 0, NOCAP);
+h_frombytes!(c13_q_frombytes_bvd_n1, 4, Bvd, 1, NOCAP);
+h_frombytes!(c13_q_frombytes_bvd_n7, 9, Bvd, 7, NOCAP);
+h_frombytes!(c13_q_frombytes_bvd_n8, 10, Bvd, 8, NOCAP);
+h_frombytes!(c13_q_frombytes_bvd_n9, 11, Bvd, 9, NOCAP);
+h_frombytes!(c13_q_frombytes_bvd_n16, 18, Bvd, 16, NOCAP);
+h_frombytes!(c13_q_frombytes_bvd_n17, 19, Bvd, 17, NOCAP);
+h_frombytes!(c13_q_frombytes_bvd_n24, 26, Bvd, 24, NOCAP);
+h_frombytes!(c13_t_frombytes_bvd_n15, 17, Bvd, 15, NOCAP);
+h_frombytes!(c13_t_frombytes_bvd_n25, 27, Bvd, 25, NOCAP);
+h_frombytes!(c13_t_frombytes_bvd_n32, 34, Bvd, 32, NOCAP);
+h_frombytes!(c13_q_frombytes_bv_n0, 4, Bv, 0, NOCAP);
+h_frombytes!(c13_q_frombytes_bv_n1, 4, Bv, 1, NOCAP);
+h_frombytes!(c13_q_frombytes_bv_n8, 10, Bv, 8, NOCAP);
+h_frombytes!(c13_q_frombytes_bv_n9, 11, Bv, 9, NOCAP);
+h_frombytes!(c13_q_frombytes_bv_n16, 18, Bv, 16, NOCAP);
+h_frombytes!(c13_q_frombytes_bv_n17, 19, Bv, 17, NOCAP);
+h_frombytes!(c13_q_frombytes_bv_n24, 26, Bv, 24, NOCAP);
+h_frombytes!(c13_t_frombytes_bv_n15, 17, Bv, 15, NOCAP);
+h_frombytes!(c13_t_frombytes_bv_n25, 27, Bv, 25, NOCAP);
+// ==== read: symbolic length (any usize) for the small fixed types ================================
+h_read!(c13_q_read_f8x2, 5, sym, Bvf<u8, 2>, 3, nd::usize(), 16);
+h_read!(c13_q_read_f8x2_short, 4, sym, Bvf<u8, 2>, 1, nd::usize(), 16);
+h_read!(c13_q_read_f8x3, 6, sym, Bvf<u8, 3>, 4, nd::usize(), 24);
+h_read!(c13_t_read_f8x1, 4, sym, Bvf<u8, 1>, 2, nd::usize(), 8);
+h_read!(c13_t_read_f16x2, 7, sym, Bvf<u16, 2>, 5, nd::usize(), 32);
+// ==== read: concrete length lattice (reader one byte longer than needed) ==========================
+h_read!(c13_q_read_f16x2_l15, 5, con, Bvf<u16, 2>, 3, 15, 32);
+h_read!(c13_q_read_f16x2_l17, 6, con, Bvf<u16, 2>, 4, 17, 32);
+h_read!(c13_q_read_f16x2_l31, 7, con, Bvf<u16, 2>, 5, 31, 32);
+h_read!(c13_t_read_f16x2_l0, 4, con, Bvf<u16, 2>, 1, 0, 32);
+h_read!(c13_t_read_f16x2_l1, 4, con, Bvf<u16, 2>, 2, 1, 32);
+h_read!(c13_t_read_f16x2_l16, 5, con, Bvf<u16, 2>, 3, 16, 32);
+h_read!(c13_t_read_f16x2_l32, 7, con, Bvf<u16, 2>, 5, 32, 32);
+h_read!(c13_q_read_f64x2_l0, 4, con, Bvf<u64, 2>, 1, 0, 128);
+h_read!(c13_q_read_f64x2_l1, 4, con, Bvf<u64, 2>, 2, 1, 128);
+h_read!(c13_q_read_f64x2_l57, 11, con, Bvf<u64, 2>, 9, 57, 128);
+h_read!(c13_q_read_f64x2_l63, 11, con, Bvf<u64, 2>, 9, 63, 128);
+h_read!(c13_q_read_f64x2_l64, 11, con, Bvf<u64, 2>, 9, 64, 128);
+h_read!(c13_q_read_f64x2_l65, 12, con, Bvf<u64, 2>, 10, 65, 128);
+h_read!(c13_q_read_f64x2_l121, 19, con, Bvf<u64, 2>, 17, 121, 128);
+h_read!(c13_q_read_f64x2_l127, 19, con, Bvf<u64, 2>, 17, 127, 128);
+h_read!(c13_q_read_f64x2_l128, 19, con, Bvf<u64, 2>, 17, 128, 128);
+h_read!(c13_t_read_f64x2_l7, 4, con, Bvf<u64, 2>, 2, 7, 128);
+h_read!(c13_t_read_f64x2_l8, 4, con, Bvf<u64, 2>, 2, 8, 128);
+h_read!(c13_t_read_f64x2_l9, 5, con, Bvf<u64, 2>, 3, 9, 128);
+h_read!(c13_t_read_f64x2_l71, 12, con, Bvf<u64, 2>, 10, 71, 128);
+h_read!(c13_t_read_f64x2_l72, 12, con, Bvf<u64, 2>, 10, 72, 128);
+h_read!(c13_t_read_f64x2_l73, 13, con, Bvf<u64, 2>, 11, 73, 128);
+h_read!(c13_t_read_f32x2_l31, 7, con, Bvf<u32, 2>, 5, 31, 64);
+h_read!(c13_t_read_f32x2_l33, 8, con, Bvf<u32, 2>, 6, 33, 64);
+h_read!(c13_t_read_f32x2_l57, 11, con, Bvf<u32, 2>, 9, 57, 64);
+h_read!(c13_t_read_f32x2_l64, 11, con, Bvf<u32, 2>, 9, 64, 64);
+h_read!(c13_t_read_fuszx2_l63, 11, con, Bvf<usize, 2>, 9, 63, 128);
+h_read!(c13_t_read_fuszx2_l65, 12, con, Bvf<usize, 2>, 10, 65, 128);
+h_read!(c13_t_read_fuszx2_l127, 19, con, Bvf<usize, 2>, 17, 127, 128);
+h_read!(c13_t_read_f128x1_l77, 13, con, Bvf<u128, 1>, 11, 77, 128);
+h_read!(c13_t_read_f128x1_l128, 19, con, Bvf<u128, 1>, 17, 128, 128);
+h_read!(c13_t_read_f128x2_l129, 20, con, Bvf<u128, 2>, 18, 129, 256);
+h_read!(c13_t_read_f128x2_l250, 35, con, Bvf<u128, 2>, 33, 250, 256);
+h_read!(c13_t_read_f64x3_l121, 19, con, Bvf<u64, 3>, 17, 121, 192);
+h_read!(c13_t_read_f64x3_l130, 20, con, Bvf<u64, 3>, 18, 130, 192);
+h_read!(c13_t_read_f64x3_l185, 27, con, Bvf<u64, 3>, 25, 185, 192);
+h_read!(c13_q_read_bvd_l0, 4, con, Bvd, 1, 0, NOCAP);
+h_read!(c13_q_read_bvd_l1, 4, con, Bvd, 2, 1, NOCAP);
+h_read!(c13_q_read_bvd_l7, 4, con, Bvd, 2, 7, NOCAP);
+h_read!(c13_q_read_bvd_l8, 4, con, Bvd, 2, 8, NOCAP);
+h_read!(c13_q_read_bvd_l9, 5, con, Bvd, 3, 9, NOCAP);
+h_read!(c13_q_read_bvd_l63, 11, con, Bvd, 9, 63, NOCAP);
+h_read!(c13_q_read_bvd_l64, 11, con, Bvd, 9, 64, NOCAP);
+h_read!(c13_q_read_bvd_l65, 12, con, Bvd, 10, 65, NOCAP);
+h_read!(c13_q_read_bvd_l127, 19, con, Bvd, 17, 127, NOCAP);
+h_read!(c13_q_read_bvd_l128, 19, con, Bvd, 17, 128, NOCAP);
+h_read!(c13_q_read_bvd_l129, 20, con, Bvd, 18, 129, NOCAP);
+h_read!(c13_t_read_bvd_l57, 11, con, Bvd, 9, 57, NOCAP);
+h_read!(c13_t_read_bvd_l72, 12, con, Bvd, 10, 72, NOCAP);
+h_read!(c13_t_read_bvd_l121, 19, con, Bvd, 17, 121, NOCAP);
+h_read!(c13_t_read_bvd_l185, 27, con, Bvd, 25, 185, NOCAP);
+h_read!(c13_t_read_bvd_l192, 27, con, Bvd, 25, 192, NOCAP);
+h_read!(c13_q_read_bv_l0, 4, con, Bv, 1, 0, NOCAP);
+h_read!(c13_q_read_bv_l1, 4, con, Bv, 2, 1, NOCAP);
+h_read!(c13_q_read_bv_l9, 5, con, Bv, 3, 9, NOCAP);
+h_read!(c13_q_read_bv_l63, 11, con, Bv, 9, 63, NOCAP);
+h_read!(c13_q_read_bv_l65, 12, con, Bv, 10, 65, NOCAP);
+h_read!(c13_q_read_bv_l121, 19, con, Bv, 17, 121, NOCAP);
+h_read!(c13_q_read_bv_l127, 19, con, Bv, 17, 127, NOCAP);
+h_read!(c13_q_read_bv_l128, 19, con, Bv, 17, 128, NOCAP);
+h_read!(c13_q_read_bv_l129, 20, con, Bv, 18, 129, NOCAP);
+h_read!(c13_q_read_bv_l136, 20, con, Bv, 18, 136, NOCAP);
+h_read!(c13_q_read_bv_l185, 27, con, Bv, 25, 185, NOCAP);
+h_read!(c13_t_read_bv_l64, 11, con, Bv, 9, 64, NOCAP);
+h_read!(c13_t_read_bv_l192, 27, con, Bv, 25, 192, NOCAP);
+// beyond the fixed capacity / short input at concrete lengths
+h_read!(c13_q_read_f64x2_l129, 19, con, Bvf<u64, 2>, 17, 129, 128);
+h_read!(c13_q_read_f64x2_l100_short, 14, con, Bvf<u64, 2>, 12, 100, 128);
+h_read!(c13_t_read_f64x2_lmax, 4, con, Bvf<u64, 2>, 2, usize::MAX, 128);
+h_read_short!(c13_q_readshort_bvd_l17, 5, Bvd, 2, 17);
+h_read_short!(c13_q_readshort_bvd_l129, 18, Bvd, 16, 129);
+h_read_short!(c13_q_readshort_bv_l129, 18, Bv, 16, 129);
+h_read_short!(c13_q_readshort_bv_l100, 14, Bv, 12, 100);
+// a length whose byte count cannot be represented: still "short input", must be Err
+h_read_short!(c13_q_readshort_bvd_lmax_pb, 4, Bvd, 2, usize::MAX);
+h_read_short!(c13_t_readshort_bv_lmax_pb, 4, Bv, 2, usize::MAX - 3);
+// ==== round trips ===========================================================================
+h_rt_stream!(c13_q_rtstream_f8x2, 4, sym, Bvf<u8, 2>, f8x2(anylen(16)), 3);
+h_rt_bytes!(c13_q_rtbytes_f8x2, 4, sym, Bvf<u8, 2>, f8x2(anylen(16)));
+h_rt_stream!(c13_t_rtstream_f8x3, 5, sym, Bvf<u8, 3>, f8x3(anylen(24)), 4);
+h_rt_bytes!(c13_t_rtbytes_f8x3, 5, sym, Bvf<u8, 3>, f8x3(anylen(24)));
+h_rt_stream!(c13_q_rtstream_f64x2_l65, 12, con, Bvf<u64, 2>, f64x2(65), 10);
+h_rt_bytes!(c13_q_rtbytes_f64x2_l65, 12, con, Bvf<u64, 2>, f64x2(65));
+h_rt_stream!(c13_q_rtstream_f64x2_l121, 19, con, Bvf<u64, 2>, f64x2(121), 17);
+h_rt_bytes!(c13_q_rtbytes_f64x2_l121, 19, con, Bvf<u64, 2>, f64x2(121));
+h_rt_stream!(c13_t_rtstream_f64x2_l0, 4, con, Bvf<u64, 2>, f64x2(0), 1);
+h_rt_bytes!(c13_t_rtbytes_f64x2_l0, 4, con, Bvf<u64, 2>, f64x2(0));
+h_rt_stream!(c13_t_rtstream_f64x2_l64, 11, con, Bvf<u64, 2>, f64x2(64), 9);
+h_rt_bytes!(c13_t_rtbytes_f64x2_l64, 11, con, Bvf<u64, 2>, f64x2(64));
+h_rt_stream!(c13_t_rtstream_f64x2_l128, 19, con, Bvf<u64, 2>, f64x2(128), 17);
+h_rt_bytes!(c13_t_rtbytes_f64x2_l128, 19, con, Bvf<u64, 2>, f64x2(128));
+h_rt_stream!(c13_q_rtstream_bvd3_l65, 12, con, Bvd, bvd3(65), 10);
+h_rt_bytes!(c13_q_rtbytes_bvd3_l65, 12, con, Bvd, bvd3(65));
+h_rt_stream!(c13_q_rtstream_bvd3_l121, 19, con, Bvd, bvd3(121), 17);
+h_rt_bytes!(c13_q_rtbytes_bvd3_l121, 19, con, Bvd, bvd3(121));
+h_rt_stream!(c13_t_rtstream_bvd3_l0, 4, con, Bvd, bvd3(0), 1);
+h_rt_bytes!(c13_t_rtbytes_bvd3_l0, 4, con, Bvd, bvd3(0));
+h_rt_stream!(c13_t_rtstream_bvd3_l1, 4, con, Bvd, bvd3(1), 2);
+h_rt_bytes!(c13_t_rtbytes_bvd3_l1, 4, con, Bvd, bvd3(1));
+h_rt_stream!(c13_t_rtstream_bvd3_l128, 19, con, Bvd, bvd3(128), 17);
+h_rt_bytes!(c13_t_rtbytes_bvd3_l128, 19, con, Bvd, bvd3(128));
+h_rt_stream!(c13_t_rtstream_bvd3_l129, 20, con, Bvd, bvd3(129), 18);
+h_rt_bytes!(c13_t_rtbytes_bvd3_l129, 20, con, Bvd, bvd3(129));
+h_rt_stream!(c13_t_rtstream_bvd3_l185, 27, con, Bvd, bvd3(185), 25);
+h_rt_bytes!(c13_t_rtbytes_bvd3_l185, 27, con, Bvd, bvd3(185));
+h_rt_stream!(c13_q_rtstream_bvfix_l121, 19, con, Bv, bvfix(121), 17);
+h_rt_bytes!(c13_q_rtbytes_bvfix_l121, 19, con, Bv, bvfix(121));
+h_rt_stream!(c13_t_rtstream_bvfix_l65, 12, con, Bv, bvfix(65), 10);
+h_rt_bytes!(c13_t_rtbytes_bvfix_l65, 12, con, Bv, bvfix(65));
+h_rt_stream!(c13_t_rtstream_bvfix_l128, 19, con, Bv, bvfix(128), 17);
+h_rt_bytes!(c13_t_rtbytes_bvfix_l128, 19, con, Bv, bvfix(128));
+h_rt_stream!(c13_q_rtstream_bvdyn3_l129, 20, con, Bv, bvdyn3(129), 18);
+h_rt_bytes!(c13_q_rtbytes_bvdyn3_l129, 20, con, Bv, bvdyn3(129));
+h_rt_stream!(c13_t_rtstream_bvdyn3_l100, 16, con, Bv, bvdyn3(100), 14);
+h_rt_bytes!(c13_t_rtbytes_bvdyn3_l100, 16, con, Bv, bvdyn3(100));
+h_rt_stream!(c13_t_rtstream_bvdyn3_l185, 27, con, Bv, bvdyn3(185), 25);
+h_rt_bytes!(c13_t_rtbytes_bvdyn3_l185, 27, con, Bv, bvdyn3(185));
